@@ -5,6 +5,7 @@ import Driver.Validate
 import Driver.Metrics
 import Driver.Retry
 import Driver.Embed
+import Driver.Linearize
 
 namespace Driver
 
@@ -19,6 +20,7 @@ def dispatch (dom : String) (ops : Array String) : Array String :=
   | "metrics" => Metrics.runCase ops
   | "retry" => Retry.runCase ops
   | "embed" => Embed.runCase ops
+  | "linearize" => Linearize.runCase ops
   | _ => ops.map (fun _ => "unknown-domain")
 
 end Driver
